@@ -184,7 +184,7 @@ func genScript(r *rand.Rand, g *idGen, c loopCfg, n int) []opSpec {
 			}
 			return []cmdSpec{{Args: []string{"SET", k, markerOf(), "PX", "86400000"}, ID: id, Kind: "lk-key"}}
 		case 28:
-			if c.Filter == "none" || c.Filter == "prefix-blacklist" {
+			if c.Filter == "none" || c.Filter == "prefix-blacklist" || c.Filter == "cmd-blacklist" {
 				// outside the reserved namespace: the reserved prefix ends with a colon
 				return []cmdSpec{{Args: []string{"SET", fmt.Sprintf("redis-gunyu-bisyncX:cp:marker:{slot-0}:%s", id), markerOf()}, ID: id, Kind: "lk-near-prefix"}}
 			}
@@ -194,13 +194,107 @@ func genScript(r *rand.Rand, g *idGen, c loopCfg, n int) []opSpec {
 		}
 	}
 
+	// bk: a NON-KEY argument that begins like a key of the tool's bookkeeping namespace, or that
+	// looks like a marker value without being one, carrying the command's id
+	bk := func(id string) string {
+		switch r.Intn(9) {
+		case 0:
+			return "redis-gunyu-checkpoint-bisync:ab" + id
+		case 1:
+			return "redis-gunyu-bisync:redis-gunyu-checkpoint-bisync:00ff:marker:{slot-0}" + id
+		case 2:
+			return "redis-gunyu-bisync: see the runbook before touching these keys " + id
+		case 3:
+			return "redis-gunyu-checkpoint rotated by ops " + id
+		case 4:
+			return "redis-gunyu-checkpoint-hash" + id
+		case 5:
+			return "redis-gunyu-bisync:redis-gunyu-checkpoint-bisync:00ff:latest:{slot-0}" + id
+		case 6:
+			// a marker value followed by other bytes: not a marker
+			return fakeMarkerJSON(r, strings.Repeat("c", 40), r.Intn(2) == 0) + id
+		case 7:
+			// decodes as a marker, but carries a field no marker has
+			m := fakeMarkerJSON(r, strings.Repeat("c", 40), false)
+			return m[:len(m)-1] + `,"note":"` + id + `"}`
+		default:
+			// cut short: not JSON at all
+			m := fakeMarkerJSON(r, strings.Repeat("c", 40), false)
+			return m[:len(m)/2] + id
+		}
+	}
+	// drawArg: one command with an ordinary key whose value / member / element / field is bk(id)
+	drawArg := func() cmdSpec {
+		id := g.next()
+		v := bk(id)
+		str := []string{own("s"), fmt.Sprintf("biz:X:s:%d", r.Intn(3))}[r.Intn(2)]
+		var args []string
+		switch r.Intn(16) {
+		case 0, 1:
+			args = []string{"SET", str, v}
+		case 2:
+			args = []string{"SET", str, v, "PX", "700000"}
+		case 3:
+			args = []string{"SETEX", str, "800", v}
+		case 4:
+			args = []string{"SETNX", fmt.Sprintf("biz:%s:nx:%s", S, id), v}
+		case 5:
+			args = []string{"APPEND", own("a"), v}
+		case 6:
+			args = []string{"MSET", own("s"), "mv", own("s"), v}
+		case 7, 8:
+			args = []string{"SADD", []string{own("t"), fmt.Sprintf("biz:X:t:%d", r.Intn(2))}[r.Intn(2)], v}
+		case 9:
+			args = []string{[]string{"RPUSH", "LPUSH"}[r.Intn(2)], own("l"), v}
+		case 10:
+			args = []string{"RPUSH", own("l"), "x" + strconv.Itoa(r.Intn(9)), v}
+		case 11:
+			args = []string{"HSET", []string{own("h"), fmt.Sprintf("biz:X:h:%d", r.Intn(2))}[r.Intn(2)], "f" + strconv.Itoa(r.Intn(4)), v}
+		case 12:
+			args = []string{"HSET", own("h"), v, "hv" + strconv.Itoa(r.Intn(9))}
+		case 13:
+			args = []string{"ZADD", own("z"), "2.5", v}
+		case 14:
+			args = []string{"XADD", own("st"), "*", "f", v}
+		default:
+			args = []string{"XADD", own("st"), "*", v, "xv"}
+		}
+		return cmdSpec{Args: args, ID: id, Kind: "lk-arg-" + strings.ToLower(args[0])}
+	}
+
 	var ops []opSpec
 	db := 0
 	for len(ops) < n {
 		if r.Intn(12) == 0 {
 			db = 1 - db
 		}
-		switch x := r.Intn(10); {
+		switch x := r.Intn(13); {
+		case x == 10:
+			// stand-alone
+			db = 0
+			ops = append(ops, opSpec{DB: 0, Cmds: []cmdSpec{drawArg()}})
+		case x == 11:
+			// a MULTI/EXEC with ONE effective command (a Redis ≥ 7 master propagates it bare),
+			// sometimes next to a command that changes nothing
+			db = 0
+			op := opSpec{Txn: true, DB: 0}
+			cs := drawArg()
+			cs.Kind += "-single-txn"
+			if r.Intn(2) == 0 {
+				nid := g.next()
+				op.Cmds = append(op.Cmds, cmdSpec{Args: []string{"DEL", fmt.Sprintf("biz:%s:never:%s", S, nid)}, ID: nid, Kind: "plain"})
+			}
+			op.Cmds = append(op.Cmds, cs)
+			ops = append(ops, op)
+		case x == 12:
+			// inside an ordinary transaction
+			db = 0
+			op := opSpec{Txn: true, DB: 0}
+			op.Cmds = append(op.Cmds, draw(0)...)
+			cs := drawArg()
+			cs.Kind += "-txn"
+			op.Cmds = append(op.Cmds, cs)
+			ops = append(ops, op)
 		case x < 6:
 			for _, cs := range draw(db) {
 				ops = append(ops, opSpec{DB: db, Cmds: []cmdSpec{cs}})
